@@ -86,7 +86,7 @@ class _Identities(object):
         ref, offset, width, length, base, lib = self._info()
         itemsize = numpy.dtype(self._dtype).itemsize
         return _mem.view(self if own else None, base + offset * itemsize if base else 0, (length, width),
-                         (itemsize * width, itemsize), self._dtype)
+                         (itemsize * width, itemsize), _mem.dtype_from_format("q" if self._is64 else "i"))
 
     def __buffer__(self, flags):
         return memoryview(self._view(False))
